@@ -188,3 +188,25 @@ Proof.
   - destruct (nonempty (t_CertFile c)); inversion E; reflexivity.
   - destruct (nonempty (t_KeyFile c)); inversion E; reflexivity.
 Qed.
+
+(* ---- what the consumers give back does not depend on the configured secrets -------------------------- *)
+Lemma client_result_l : forall cfg next, http_client_result cfg next = next /\ grpc_call_result cfg next = next.
+Proof. intros; split; reflexivity. Qed.
+
+Lemma client_result_ni_l : forall cfg1 cfg2 next,
+  http_client_result cfg1 next = http_client_result cfg2 next /\ grpc_call_result cfg1 next = grpc_call_result cfg2 next.
+Proof. intros; split; reflexivity. Qed.
+
+(* the text of a TLS loading error depends on WHICH sources are configured, never on their contents
+   (two configurations with the same emptiness pattern and the same loader error give the same text) *)
+Lemma tls_error_ni_l : forall c1 c2 e,
+  nonempty (t_CertFile c1) = nonempty (t_CertFile c2) -> nonempty (t_CertPem c1) = nonempty (t_CertPem c2) ->
+  nonempty (t_KeyFile c1) = nonempty (t_KeyFile c2) -> nonempty (t_KeyPem c1) = nonempty (t_KeyPem c2) ->
+  tls_error_text (load_certificate c1) e = tls_error_text (load_certificate c2) e.
+Proof.
+  intros c1 c2 e H1 H2 H3 H4. unfold load_certificate, has_cert, has_key. rewrite H1, H2, H3, H4.
+  destruct (negb (Bool.eqb (nonempty (t_CertFile c2) || nonempty (t_CertPem c2)) (nonempty (t_KeyFile c2) || nonempty (t_KeyPem c2)))); [reflexivity|].
+  destruct (negb (nonempty (t_CertFile c2) || nonempty (t_CertPem c2)) && negb (nonempty (t_KeyFile c2) || nonempty (t_KeyPem c2))); [reflexivity|].
+  destruct (nonempty (t_CertFile c2) && nonempty (t_CertPem c2)); [reflexivity|].
+  destruct (nonempty (t_KeyFile c2) && nonempty (t_KeyPem c2)); reflexivity.
+Qed.
